@@ -588,6 +588,8 @@ enum Phase {
 }
 
 pub struct EvExec {
+    /// A violation met during the set-up rounds; reported by `finish`.
+    pub setup_violation: Option<Violation>,
     pub sim: Sim,
     round: usize,
     phase: Phase,
@@ -1623,6 +1625,7 @@ impl Scenario for EvCell {
             events_observed: 0,
             ops_applied: 0,
             late_disconnect: None,
+            setup_violation: None,
             orphans: BTreeMap::new(),
             premapped: BTreeSet::new(),
             closed_conns: BTreeSet::new(),
@@ -1639,8 +1642,10 @@ impl Scenario for EvCell {
             self.lockstep_round(&mut x, false)?;
             Ok(())
         })();
-        if let Err(v) = r {
-            panic!("cell {}: violation during set-up: {} {}", self.name, v.oracle, v.detail);
+        if let Err(mut v) = r {
+            v.detail = format!("during the cell's set-up (lock-step, before the first operation): {}", v.detail);
+            x.setup_violation = Some(v);
+            return x;
         }
         x.sim.steps.clear();
         x.states.clear();
@@ -1651,6 +1656,9 @@ impl Scenario for EvCell {
     }
 
     fn next(&self, x: &mut EvExec) -> Option<ChoicePoint> {
+        if x.setup_violation.is_some() {
+            return None;
+        }
         match x.phase {
             Phase::Op => Some(ChoicePoint::history(
                 "op",
@@ -1876,6 +1884,9 @@ impl Scenario for EvCell {
     }
 
     fn finish(&self, x: &mut EvExec) -> Result<(), Violation> {
+        if let Some(v) = x.setup_violation.take() {
+            return Err(v);
+        }
         x.sim.note("closure: lock-step rounds with ticks, everything delivered");
         for _ in 0..self.closure_rounds {
             self.lockstep_round(x, true)?;
